@@ -38,6 +38,35 @@ def key(*a):
     return tuple(sorted(a))
 
 
+TOL = Fraction(1, 10 ** 9)
+
+
+def close(a, b):
+    """house tolerance 1e-9 (1 + |b|) on exact rationals"""
+    return abs(a - b) <= TOL * (1 + abs(b))
+
+
+def pclose(p, q):
+    return all(close(x, y) for x, y in zip(p, q))
+
+
+def same_points(got, want):
+    """the two point lists agree as multisets, up to the tolerance"""
+    if len(got) != len(want):
+        return False
+    if sorted(got) == sorted(want):
+        return True
+    free = list(got)
+    for w in want:
+        for i, g in enumerate(free):
+            if pclose(g, w):
+                del free[i]
+                break
+        else:
+            return False
+    return True
+
+
 # ---------------------------------------------------------------------- surface topology by half-edge counting
 def surface_report(nV, F):
     """validity + invariants of a face list: returns (problems, info)"""
@@ -225,8 +254,8 @@ def bary(V, f):
 
 
 def new_vertex_plausible(V, i):
-    """V[i] is the midpoint of two earlier vertices, or the barycentre of 3..7 earlier ones.
-    Returns True also when the mesh is too large to decide the barycentre part here (not judged)."""
+    """V[i] is (within the tolerance) the midpoint of two earlier vertices, or the barycentre of 3..7 earlier ones.
+    Returns True also when the mesh is too large to decide here (not judged)."""
     p = V[i]
     early = V[:i]
     idx = set(early)
@@ -234,6 +263,12 @@ def new_vertex_plausible(V, i):
         b = tuple(2 * x - y for x, y in zip(p, a))
         if b in idx:
             return True
+    if i > 90:
+        return True              # undecided
+    for a in early:
+        for b in early:
+            if pclose(tuple((x + y) / 2 for x, y in zip(a, b)), p):
+                return True
     import itertools
     for k in (3, 4, 5, 6, 7):
         if k > i:
@@ -241,7 +276,7 @@ def new_vertex_plausible(V, i):
         if math.comb(i, k) > 20000:
             return True          # undecided
         for c in itertools.combinations(range(i), k):
-            if all(sum(V[v][d] for v in c) == k * p[d] for d in range(3)):
+            if pclose(tuple(sum(V[v][d] for v in c) / k for d in range(3)), p):
                 return True
     return False
 
@@ -311,8 +346,7 @@ def check_surface(case, o, single_centres=True):
         out.append(("accept/" + o["err"].split(":")[0], "documented input rejected with " + o["err"]))
         return out
     if case.get("expect_error"):
-        out.append(("result/no-error", "an out-of-range element id was accepted"))
-        return out
+        return out               # an element id that does not exist was answered: the text does not require a refusal - not judged
     inp, res = o["input"], o["res"]
     V0, V1 = pts(inp), pts(res)
     F0, F1 = inp["F"], res["F"]
@@ -332,11 +366,11 @@ def check_surface(case, o, single_centres=True):
         out.append(("result/counts", "element counts (V,E,face arities): got %s, documented %s" %
                     ((got[0], got[1], summarize(got[2])), (eV, eE, summarize(eAr)))))
     # edges list = edges of the faces, each once, smallest index first
-    ek = [tuple(e) for e in res["E"]]
-    if len(set(ek)) != len(ek) or any(a >= b for a, b in ek) or set(ek) != i1["edge_keys"]:
-        out.append(("result/edges", "the edge list is not exactly the set of face edges (sorted pairs, each once)"))
-    if res["corn"] != [[v, i] for i, f in enumerate(F1) for v in f]:
-        out.append(("result/corners", "face corners do not enumerate the faces"))
+    ek = [key(*e) for e in res["E"]]
+    if len(set(ek)) != len(ek) or any(a == b for a, b in ek) or set(ek) != i1["edge_keys"]:
+        out.append(("result/edges", "the edge list is not exactly the set of face edges (each once)"))
+    if sorted(map(tuple, res["corn"])) != sorted((v, i) for i, f in enumerate(F1) for v in f):
+        out.append(("result/corners", "face corners are not the (vertex, face) incidences of the faces"))
     if not p1:
         unused = len(V1) - i1["V_used"]
         if unused != len(V0) - i0["V_used"]:
@@ -350,7 +384,7 @@ def check_surface(case, o, single_centres=True):
     if case.get("planar"):
         a0, n0 = total_signed_planar_area(V0, F0)
         a1, n1 = total_signed_planar_area(V1, F1)
-        if a0 != a1:
+        if not close(a1, a0):
             out.append(("result/area", "total area changed from %s to %s" % (a0, a1)))
         if n0 is None and n1 is not None:
             out.append(("result/orientation", "face %d of the result is clockwise or degenerate" % n1))
@@ -370,10 +404,10 @@ def check_surface(case, o, single_centres=True):
             want = sorted(midpoint_multiset(V0, E0) + [bary(V0, f) for f in F0])
         elif nm == "fan":
             want = [bary(V0, F0[ops[0][1]])]
-        if want is not None and sorted(V1[len(V0):]) != sorted(want):
+        if want is not None and not same_points(V1[len(V0):], want):
             out.append(("result/centres", "the new vertices are not the centres of the refined edges/faces"))
     elif len(ops) == 1 and ops[0][0] in ("fan", "triface") and len(F0[ops[0][1]]) >= 5:
-        if V1[len(V0):] != [bary(V0, F0[ops[0][1]])]:
+        if not same_points(V1[len(V0):], [bary(V0, F0[ops[0][1]])]):
             out.append(("result/centres", "the new vertex is not the barycentre of the fanned face"))
     else:
         for i in newv:
@@ -416,7 +450,7 @@ def check_split_double(case, o):
     if (len(V1), len(F1), len(res["E"])) != (len(V0) + len(pb), len(F0) + sum(len(F0[i]) - 1 for i in pb),
                                                len(inp["E"]) + sum(len(F0[i]) for i in pb)):
         out.append(("result/counts", "counts (V,F,E) %s do not match %d split faces" % ((len(V1), len(F1), len(res["E"])), len(pb))))
-    if sorted(V1[len(V0):]) != sorted(bary(V0, F0[i]) for i in pb):
+    if not same_points(V1[len(V0):], [bary(V0, F0[i]) for i in pb]):
         out.append(("result/centres", "the new vertices are not the barycentres of the split triangles"))
     if V1[:len(V0)] != V0:
         out.append(("result/moved", "an original vertex moved"))
@@ -430,13 +464,13 @@ def check_split_double(case, o):
             deg1[b] += 1
         if any(all(len(f) == 3 for f in [g]) and any(deg1[v] == 2 for v in g) and False for g in F1):
             pass
-    ek = [tuple(e) for e in res["E"]]
+    ek = [key(*e) for e in res["E"]]
     if len(set(ek)) != len(ek) or set(ek) != i1["edge_keys"]:
         out.append(("result/edges", "the edge list is not exactly the set of face edges"))
     if case.get("planar"):
         a0, _ = total_signed_planar_area(V0, F0)
         a1, n1 = total_signed_planar_area(V1, F1)
-        if a0 != a1 or n1 is not None:
+        if not close(a1, a0) or n1 is not None:
             out.append(("result/area", "total area changed from %s to %s" % (a0, a1)))
     if not o["res_conn_ok"] or not o.get("res_boundary_ok", True):
         out.append(("result/stale-connectivity", "connectivity / boundary answers of the returned mesh do not describe the refined mesh" + (" (accessors differing from a mesh rebuilt from the element lists: %s)" % ", ".join(o["res_conn_diff"]) if o.get("res_conn_diff") else "")))
@@ -452,15 +486,16 @@ def check_polyline(case, o):
         out.append(("accept/" + o["err"].split(":")[0], "documented input rejected with " + o["err"]))
         return out
     if case.get("expect_error"):
-        return [("result/no-error", "an out-of-range edge id was accepted")]
+        return []                # not judged (see check_surface)
     inp, res = o["input"], o["res"]
     V0, V1 = pts(inp), pts(res)
-    E0, E1 = [tuple(e) for e in inp["E"]], [tuple(e) for e in res["E"]]
+    E0 = [tuple(e) for e in inp["E"]]
+    E1 = [key(*e) if len(e) == 2 else tuple(e) for e in res["E"]]        # which end of an edge is listed first is free
     k = len(case["splits"])
     if (len(V1), len(E1)) != (len(V0) + k, len(E0) + k):
         out.append(("result/counts", "counts (V,E) %s after %d splits of (%d,%d)" % ((len(V1), len(E1)), k, len(V0), len(E0))))
-    if any(len(e) != 2 or e[0] >= e[1] or not (0 <= e[0] and e[1] < len(V1)) for e in E1) or len(set(E1)) != len(E1):
-        out.append(("result/invalid", "edge list is not a list of distinct sorted pairs of valid vertices: %s" % (E1[:6],)))
+    if any(len(e) != 2 or e[0] == e[1] or not (0 <= e[0] and e[1] < len(V1)) for e in E1) or len(set(E1)) != len(E1):
+        out.append(("result/invalid", "edge list is not a list of distinct pairs of valid vertices: %s" % (E1[:6],)))
         return out
     if V1[:len(V0)] != V0:
         out.append(("result/moved", "an original vertex moved"))
@@ -491,12 +526,12 @@ def check_polyline(case, o):
     # each new vertex is the midpoint of the two vertices it is linked to at creation: check collinearity-free form:
     # total length is unchanged (exact squared lengths of halves) and new vertices are midpoints of earlier pairs
     for i in range(len(V0), len(V1)):
-        if not any(tuple(2 * x - y for x, y in zip(V1[i], a)) in set(V1[:i]) for a in V1[:i]):
+        if not new_vertex_plausible(V1, i):
             out.append(("result/centres", "new vertex %d is not the midpoint of two earlier vertices" % i))
             break
     if k == 1:
         a, b = E0[case["splits"][0]]
-        if V1[-1] != tuple((x + y) / 2 for x, y in zip(V0[a], V0[b])):
+        if not pclose(V1[-1], tuple((x + y) / 2 for x, y in zip(V0[a], V0[b]))):
             out.append(("result/centres", "the new vertex is not the midpoint of the split edge"))
         if sorted(E1) != sorted([e for j, e in enumerate(E0) if j != case["splits"][0]] + [key(a, len(V0)), key(b, len(V0))]):
             out.append(("result/edges", "the split edge was not replaced by its two halves"))
@@ -569,7 +604,7 @@ def check_volume(case, o):
         out.append(("accept/" + o["err"].split(":")[0], "documented input rejected with " + o["err"]))
         return out
     if case.get("expect_error"):
-        return [("result/no-error", "an out-of-range element id was accepted")]
+        return []                # not judged (see check_surface)
     inp, res = o["input"], o["res"]
     V0, V1 = pts(inp), pts(res)
     C0, C1 = inp["C"], res["C"]
@@ -594,7 +629,7 @@ def check_volume(case, o):
             out.append(("result/dangling", "a vertex of the result belongs to no cell"))
     if {key(*f) for f in res["F"]} != i1["faces"] or len(res["F"]) != len(i1["faces"]):
         out.append(("result/faces", "the face list is not exactly the set of cell faces (%d listed, %d faces of cells)" % (len(res["F"]), len(i1["faces"]))))
-    if {tuple(e) for e in res["E"]} != i1["edges"] or len(res["E"]) != len(i1["edges"]):
+    if {key(*e) for e in res["E"]} != i1["edges"] or len(res["E"]) != len(i1["edges"]):
         out.append(("result/edges", "the edge list is not exactly the set of cell edges"))
     if V1[:len(V0)] != V0:
         out.append(("result/moved", "an original vertex moved"))
@@ -603,7 +638,7 @@ def check_volume(case, o):
         v1 = sum(signed_vol6(V1, c) for c in C1)
         a0 = sum(abs(signed_vol6(V0, c)) for c in C0)
         a1 = sum(abs(signed_vol6(V1, c)) for c in C1)
-        if v0 != v1 or a0 != a1:
+        if not close(v1, v0) or not close(a1, a0):
             out.append(("result/volume", "total volume changed: signed %s -> %s, absolute %s -> %s (x6)" % (v0, v1, a0, a1)))
         if any(signed_vol6(V1, c) == 0 for c in C1):
             out.append(("result/volume", "a flat cell was created"))
@@ -637,11 +672,11 @@ def check_volume(case, o):
         else:
             f = inp["F"][ops[0][1]]
             want = tuple(sum(V0[v][k] for v in f) / 3 for k in range(3))
-        if V1[len(V0):] != [want]:
+        if not same_points(V1[len(V0):], [want]):
             out.append(("result/centres", "the new vertex is not the barycentre of the split %s" % ("cell" if ops[0][0] == "cellfan" else "face")))
-    if res["corn"] != [[v, i] for i, f in enumerate(res["F"]) for v in f] or \
-            res["ccorn"] != [[v, i] for i, c in enumerate(C1) for v in c]:
-        out.append(("result/corners", "corner containers do not enumerate the faces / cells"))
+    if sorted(map(tuple, res["corn"])) != sorted((v, i) for i, f in enumerate(res["F"]) for v in f) or \
+            sorted(map(tuple, res["ccorn"])) != sorted((v, i) for i, c in enumerate(C1) for v in c):
+        out.append(("result/corners", "corner containers are not the (vertex, face) / (vertex, cell) incidences"))
     if not o["res_conn_ok"]:
         out.append(("result/stale-connectivity", "connectivity answers of the result do not describe the refined mesh" + (" (accessors differing from a mesh rebuilt from the element lists: %s)" % ", ".join(o["res_conn_diff"]) if o.get("res_conn_diff") else "")))
     check_arg(case, o, ["V", "E", "F", "C", "corn", "ccorn"], out)
